@@ -40,6 +40,7 @@ type c06Case struct {
 	Interval time.Duration `json:"interval,omitempty"` // min=max interval (default 4s)
 	Events   []c06Event    `json:"events"`
 	Choices []int      `json:"choices,omitempty"`
+	Tail    time.Duration `json:"tail,omitempty"` // quiet time before the stop (default 8s)
 }
 
 const c06Interval = 4 * time.Second
@@ -98,7 +99,11 @@ func c06Scenario(c c06Case, keep **advWorld) *vsched.Scenario {
 						a.inject(rsFrom("fe80::5", true))
 					}
 				}
-				vsched.Sleep(7 * time.Second)
+				tail := 8 * time.Second
+				if c.Tail != 0 {
+					tail = c.Tail
+				}
+				vsched.Sleep(tail)
 				a.term.set(os.Interrupt)
 				vsched.Obs("stop", "")
 				a.cancel()
